@@ -4,7 +4,7 @@
 From Coq Require Import List Bool ZArith QArith Qcanon Qabs Lia Lqa Sorted Permutation.
 From RecordUpdate Require Import RecordSet.
 From PV Require Import Base.AList Base.QUtil Base.Round Gen.GenDedup Model.EventLib Model.Seq Model.Dedup
-     Proofs.SeqSpec Proofs.SeqCache Proofs.RoundProofs.
+     Proofs.SeqSpec Proofs.SeqCache Proofs.SeqCont Proofs.RoundProofs.
 Import ListNotations RecordSetNotations.
 Open Scope Z_scope.
 
@@ -820,4 +820,230 @@ Proof.
   cbn [step]. rewrite E. cbn [fst]. split; [reflexivity|].
   unfold do_get. cbn [st_cache st_core aget].
   destruct cache_on; destruct (decode c' i); reflexivity.
+Qed.
+
+(* ================================================================================================ *)
+(* 6. Sequence.remove_duplicates (dedup_core)                                                         *)
+(* ================================================================================================ *)
+Lemma qz_zq (z : Z) : qz (zq z) = z.
+Proof.
+  unfold qz, zq. cbn [this Q2Qc].
+  rewrite (Qround.Qfloor_comp _ _ (Qred_correct (inject_Z z))). apply Qround.Qfloor_Z.
+Qed.
+
+(* ---- remapping of the shape ids inside gradient / RF rows ------------------------------------------- *)
+Lemma kupd_data (l : klib) id nd : id <> 0 ->
+  ldata (kupd l id nd 0) = aset Z.eqb (ldata l) id nd /\ ltype (kupd l id nd 0) = ltype l.
+Proof.
+  intro N. unfold kupd, lib_update, lib_insert. cbn [fst ldata ltype lnext].
+  assert (E : id =? 0 = false) by (apply Z.eqb_neq; exact N). rewrite E. cbn [ldata ltype]. split; reflexivity.
+Qed.
+
+Definition row_after (isg : Z -> bool) (f : key -> option key) (id : Z) (d : key) : option key :=
+  if isg id then f d else Some d.
+
+Lemma remap_rows_spec (isg : Z -> bool) (f : key -> option key) : forall rows (l0 : klib),
+  NoDup (map fst rows) -> ~ In 0 (map fst rows) ->
+  (forall id d, In (id, d) rows -> lib_get l0 id = Some d) ->
+  (forall id d, In (id, d) rows -> row_after isg f id d <> None) ->
+  exists l', remap_rows rows l0 isg f = Some l' /\ akeys (ldata l') = akeys (ldata l0) /\ ltype l' = ltype l0 /\
+    forall id, lib_get l' id = match aget Z.eqb rows id with
+                               | Some d => row_after isg f id d
+                               | None => lib_get l0 id end.
+Proof.
+  induction rows as [|[id d] r IH]; intros l0 N Z0 Hin Hf.
+  - exists l0. cbn. repeat split; reflexivity.
+  - cbn [map fst] in N, Z0. inversion N as [|? ? N1 N2]; subst.
+    assert (Hid : id <> 0) by (intro X; apply Z0; left; exact X).
+    assert (Z0' : ~ In 0 (map fst r)) by (intro X; apply Z0; right; exact X).
+    cbn [remap_rows].
+    pose proof (Hf id d (or_introl eq_refl)) as Hfd. unfold row_after in Hfd.
+    assert (Hr : forall id' d', In (id', d') r -> id' <> id).
+    { intros id' d' H X. subst. apply N1. apply (in_map fst) in H. exact H. }
+    assert (Hskip : forall l1, (forall id', id' <> id -> lib_get l1 id' = lib_get l0 id') ->
+              akeys (ldata l1) = akeys (ldata l0) -> ltype l1 = ltype l0 ->
+              forall v, lib_get l1 id = v ->
+              exists l', remap_rows r l1 isg f = Some l' /\ akeys (ldata l') = akeys (ldata l0) /\ ltype l' = ltype l0 /\
+                forall id', lib_get l' id' = if id =? id' then v else
+                                                     match aget Z.eqb r id' with
+                                                     | Some d' => row_after isg f id' d' | None => lib_get l0 id' end).
+    { intros l1 Hoth Hk Ht v Hv.
+      destruct (IH l1 N2 Z0') as (l' & E & K & T & G).
+      - intros id' d' H. rewrite Hoth by (eapply Hr; exact H). apply Hin. right. exact H.
+      - intros id' d' H. apply Hf. right. exact H.
+      - exists l'. split; [exact E|]. split; [congruence|]. split; [congruence|].
+        intro id'. rewrite G. destruct (id =? id') eqn:Eid.
+        + apply Z.eqb_eq in Eid. subst id'.
+          assert (A : aget Z.eqb r id = None).
+          { destruct (aget Z.eqb r id) eqn:A; [|reflexivity]. apply agetZ_In in A. exfalso. eapply Hr; [exact A|reflexivity]. }
+          rewrite A. exact Hv.
+        + apply Z.eqb_neq in Eid. destruct (aget Z.eqb r id'); [reflexivity|]. apply Hoth. congruence. }
+    assert (Hfin : forall v l', (forall id', lib_get l' id' = if id =? id' then v else
+                                                     match aget Z.eqb r id' with
+                                                     | Some d' => row_after isg f id' d' | None => lib_get l0 id' end) ->
+                 v = row_after isg f id d ->
+                 forall id', lib_get l' id' = match aget Z.eqb ((id, d) :: r) id' with
+                               | Some d0 => row_after isg f id' d0
+                               | None => lib_get l0 id' end).
+    { intros v l' G Ev id'. rewrite G. cbn [aget]. destruct (id =? id') eqn:Eid.
+      - apply Z.eqb_eq in Eid. subst. reflexivity.
+      - destruct (aget Z.eqb r id'); reflexivity. }
+    pose proof (Hin id d (or_introl eq_refl)) as Hd.
+    destruct (isg id) eqn:Eg.
+    + destruct (f d) as [nd|] eqn:Efd; [|congruence].
+      destruct (key_eqb d nd) eqn:Ek.
+      * apply key_eqb_spec in Ek. subst nd.
+        destruct (Hskip l0 (fun _ _ => eq_refl) eq_refl eq_refl (Some d) Hd) as (l' & E & K & T & G).
+        exists l'. repeat split; try assumption. apply (Hfin (Some d)); [exact G|]. unfold row_after. rewrite Eg. congruence.
+      * destruct (kupd_data l0 id nd Hid) as [D T1].
+        destruct (Hskip (kupd l0 id nd 0)) with (v := Some nd) as (l' & E & K & T & G).
+        -- intros id' H. unfold lib_get. rewrite D. apply agetZ_aset_other. exact H.
+        -- rewrite D. apply akeys_asetZ_in. unfold lib_get in Hd. congruence.
+        -- exact T1.
+        -- unfold lib_get. rewrite D. apply agetZ_aset_same.
+        -- exists l'. repeat split; try assumption. apply (Hfin (Some nd)); [exact G|]. unfold row_after. rewrite Eg. congruence.
+    + destruct (Hskip l0 (fun _ _ => eq_refl) eq_refl eq_refl (Some d) Hd) as (l' & E & K & T & G).
+      exists l'. repeat split; try assumption. apply (Hfin (Some d)); [exact G|]. unfold row_after. rewrite Eg. reflexivity.
+Qed.
+
+(* ---- remapping of the block table ---------------------------------------------------------------------- *)
+Definition mapval (mp : list (Z * Z)) (z : Z) : Z := match aget Z.eqb mp z with Some v => v | None => 0 end.
+Definition ev_rel (idxs : list nat) (mp : list (Z * Z)) (ev ev' : list Z) : Prop :=
+  forall n, nth n ev' 0 = if existsb (Nat.eqb n) idxs then mapval mp (nth n ev 0) else nth n ev 0.
+Definition remap_ev (idxs : list nat) (mp : list (Z * Z)) (ev : list Z) : option (list Z) :=
+  fold_left (fun (acc : option (list Z)) (ix : nat) =>
+               match acc with
+               | None => None
+               | Some e => match map_id mp (nth ix e 0) with
+                           | Some v => Some (set_nth ix v e)
+                           | None => None end
+               end) idxs (Some ev).
+
+Lemma set_nth_beyond {A} n (x : A) l : (length l <= n)%nat -> set_nth n x l = l.
+Proof.
+  revert n. induction l as [|y r IH]; intros [|n]; cbn; intro H; try lia; try reflexivity.
+  rewrite IH by lia. reflexivity.
+Qed.
+
+Lemma remap_ev_spec mp : aget Z.eqb mp 0 = Some 0 -> forall idxs ev,
+  NoDup idxs -> (forall ix, In ix idxs -> aget Z.eqb mp (nth ix ev 0) <> None) ->
+  exists ev', remap_ev idxs mp ev = Some ev' /\ ev_rel idxs mp ev ev'.
+Proof.
+  intro Z0. induction idxs as [|ix r IH]; intros ev N H.
+  - exists ev. split; [reflexivity|]. intro n. reflexivity.
+  - inversion N as [|? ? N1 N2]; subst.
+    unfold remap_ev. cbn [fold_left]. unfold map_id at 2.
+    destruct (aget Z.eqb mp (nth ix ev 0)) as [v|] eqn:E; [|exfalso; apply (H ix (or_introl eq_refl)); exact E].
+    destruct (IH (set_nth ix v ev) N2) as (ev' & E' & R).
+    { intros ix' Hix. rewrite nth_set_nth_other by (intro X; subst; contradiction). apply H. right. exact Hix. }
+    exists ev'. split; [exact E'|]. intro n. rewrite R. cbn [existsb].
+    destruct (Nat.eqb n ix) eqn:En.
+    + apply Nat.eqb_eq in En. subst n.
+      assert (X : existsb (Nat.eqb ix) r = false).
+      { destruct (existsb (Nat.eqb ix) r) eqn:X; [|reflexivity]. apply existsb_exists in X.
+        destruct X as (y & Hy & Ey). apply Nat.eqb_eq in Ey. subst. contradiction. }
+      rewrite X. cbn [orb]. unfold mapval. rewrite E.
+      destruct (Nat.lt_ge_cases ix (length ev)) as [L|L].
+      * apply nth_set_nth_same. exact L.
+      * rewrite set_nth_beyond by exact L. rewrite nth_overflow in * by exact L. congruence.
+    + cbn [orb]. apply Nat.eqb_neq in En. rewrite nth_set_nth_other by exact En. reflexivity.
+Qed.
+
+Definition blk_rel (idxs : list nat) (mp : list (Z * Z)) (p p' : Z * list Z) : Prop :=
+  fst p' = fst p /\ ev_rel idxs mp (snd p) (snd p').
+
+Lemma remap_blocks_spec mp idxs : aget Z.eqb mp 0 = Some 0 -> NoDup idxs -> forall bl,
+  (forall b ev, In (b, ev) bl -> forall ix, In ix idxs -> aget Z.eqb mp (nth ix ev 0) <> None) ->
+  exists bl', remap_blocks bl idxs mp = Some bl' /\ Forall2 (blk_rel idxs mp) bl bl'.
+Proof.
+  intros Z0 N. induction bl as [|[b ev] r IH]; intro H.
+  - exists []. split; [reflexivity|constructor].
+  - cbn [remap_blocks]. fold (remap_ev idxs mp ev).
+    destruct (remap_ev_spec mp Z0 idxs ev N (H b ev (or_introl eq_refl))) as (ev' & E & R).
+    rewrite E. destruct IH as (r' & E' & F); [intros b' e' Hb; apply (H b' e'); right; exact Hb|].
+    rewrite E'. exists ((b, ev') :: r'). split; [reflexivity|]. constructor; [split; [reflexivity|exact R]|exact F].
+Qed.
+
+Lemma blk_rel_aget (R : list Z -> list Z -> Prop) : forall bl bl',
+  Forall2 (fun p p' : Z * list Z => fst p' = fst p /\ R (snd p) (snd p')) bl bl' ->
+  akeys bl' = akeys bl /\
+  forall b ev, aget Z.eqb bl b = Some ev -> exists ev', aget Z.eqb bl' b = Some ev' /\ R ev ev'.
+Proof.
+  induction 1 as [|[b ev] [b' ev'] r r' [E1 E2] F IH]; [split; [reflexivity|discriminate]|].
+  cbn [fst snd] in E1, E2. subst b'. destruct IH as [K G]. split; [cbn; f_equal; exact K|].
+  intros b0 ev0. cbn [aget]. destruct (b =? b0); [|apply G].
+  intro H. inversion H. subst. exists ev'. split; [reflexivity|exact E2].
+Qed.
+
+Lemma Forall2_In_l {A B} (R : A -> B -> Prop) l l' y : Forall2 R l l' -> In y l' -> exists x, In x l /\ R x y.
+Proof.
+  induction 1 as [|a b r r' H F IH]; intro Hy; [contradiction|]. destruct Hy as [<-|Hy].
+  - exists a. split; [left; reflexivity|exact H].
+  - destruct (IH Hy) as (x & Hx & Rx). exists x. split; [right; exact Hx|exact Rx].
+Qed.
+
+Lemma Forall2_In_r {A B} (R : A -> B -> Prop) l l' x : Forall2 R l l' -> In x l -> exists y, In y l' /\ R x y.
+Proof.
+  induction 1 as [|a b r r' H F IH]; intro Hx; [contradiction|]. destruct Hx as [<-|Hx].
+  - exists b. split; [left; reflexivity|exact H].
+  - destruct (IH Hx) as (y & Hy & Ry). exists y. split; [right; exact Hy|exact Ry].
+Qed.
+
+(* ---- well-formed stores with valid references -------------------------------------------------------------- *)
+Definition lib_wf (l : klib) : Prop :=
+  NoDup (akeys (ldata l)) /\ Forall (fun id => 0 < id) (akeys (ldata l)) /\ Forall (fun p : Z * Z => snd p <> 0) (ltype l).
+Definition has (l : klib) (id : Z) : Prop := id = 0 \/ lib_get l id <> None.
+
+Lemma lib_wf_pos l id k : lib_wf l -> lib_get l id = Some k -> 0 < id.
+Proof.
+  intros (_ & P & _) H. rewrite Forall_forall in P. apply P. eapply (aget_Some_in Z.eqb Zeqb_spec). exact H.
+Qed.
+
+Lemma lib_wf_zero l : lib_wf l -> lib_get l 0 = None.
+Proof.
+  intro W. destruct (lib_get l 0) eqn:E; [|reflexivity]. pose proof (lib_wf_pos _ _ _ W E). lia.
+Qed.
+
+Lemma lib_wf_tag l id : lib_wf l -> tag_view (lib_type l id) = lib_type l id.
+Proof.
+  intros (_ & _ & T). destruct (lib_type l id) as [t|] eqn:E; [|reflexivity]. cbn.
+  unfold lib_type in E. apply agetZ_In in E. rewrite Forall_forall in T. specialize (T _ E). cbn in T.
+  apply Z.eqb_neq in T. rewrite T. reflexivity.
+Qed.
+
+Lemma lrd_wf (rnd : key -> key) (l : klib) : lib_wf l -> lib_wf (fst (lib_remove_duplicates key_eqb rnd l)).
+Proof.
+  intros (N & _ & _).
+  destruct (dedup_lib_invariant key key_eqb key_eqb_spec rnd l N) as (_ & P & N' & T).
+  split; [exact N'|]. split; apply Forall_forall.
+  - intros id H. apply in_map_iff in H. destruct H as ([id' k] & <- & H). cbn.
+    apply agetZ_In_nodup in H; [|exact N']. apply (P _ _ H).
+  - intros [j t] H. cbn. apply (T j t). unfold lib_type.
+    (* ids of the type table are unique as well: go through aget *)
+    destruct (aget Z.eqb (ltype (fst (lib_remove_duplicates key_eqb rnd l))) j) as [t'|] eqn:E.
+    + destruct (Z.eq_dec t' t) as [->|Ne]; [reflexivity|]. exfalso.
+      destruct (lrd_canonical key key_eqb key_eqb_spec rnd l N) as (ks & ts & Enl & _ & _ & _).
+      rewrite Enl in H, E. cbn [ltype mk] in H, E.
+      apply filter_In in H. destruct H as [H _].
+      assert (A : aget Z.eqb (enum 1 ts) j = Some t).
+      { apply agetZ_In_nodup; [|exact H]. rewrite akeys_enum. apply FinFun.Injective_map_NoDup; [|apply seq_NoDup].
+        intros a b X. lia. }
+      rewrite aget_filter_enum, A in E. cbn in E. destruct (t =? 0); congruence.
+    + exfalso. apply (aget_None_notin Z.eqb Zeqb_spec) in E. apply E. apply (in_map fst) in H. exact H.
+Qed.
+
+(* the id mapping of one library on a reference that is 0 or an existing id *)
+Lemma map_has (rnd : key -> key) (l : klib) z : lib_wf l -> has l z ->
+  exists m, aget Z.eqb (snd (lib_remove_duplicates key_eqb rnd l)) z = Some m /\
+    ((z = 0 /\ m = 0) \/
+     (exists k, lib_get l z = Some k /\ lib_get (fst (lib_remove_duplicates key_eqb rnd l)) m = Some (rnd k) /\ 0 < z /\ 0 < m)).
+Proof.
+  intros W [->|H].
+  - exists 0. split; [|left; split; reflexivity].
+    apply (dedup_map_zero key key_eqb key_eqb_spec); [apply W|apply lib_wf_zero; exact W].
+  - destruct (lib_get l z) as [k|] eqn:E; [|congruence].
+    destruct (dedup_data_is_rounded key key_eqb key_eqb_spec rnd l (proj1 W) z k E) as (m & M & D).
+    exists m. split; [exact M|right]. exists k. repeat split; try assumption.
+    + eapply lib_wf_pos; eassumption.
+    + eapply lib_wf_pos; [apply lrd_wf; exact W|exact D].
 Qed.
